@@ -26,9 +26,9 @@ func TestVerif(t *testing.T) {
 		Rule: "auth.Client over an in-process transport hosting two registries (a.example, and b.example or - same host name, other port - a.example:8443) and their token realms (one on the registry's own host, one on a foreign host), each with distinct recognisable secrets. " +
 			"sequential: every request sequence of length <= 3 (thorough 4) over {registry A|B} x {scope hint r1:pull | r2:pull,push | none} plus a request that registry A redirects to registry B and the base endpoint /v2/ of registry A (whose Bearer challenge names no scope) with and without a scope hint, for every pair of per-registry auth modes {Basic, Bearer distribution, Bearer OAuth2 refresh token, Bearer OAuth2 password+ForceAttemptOAuth2, access token; registry B also: a Bearer challenge that names no realm (outcome not judged, only what travelled)}, " +
 			"every cache flavour {none, shared, single-context}, a scheme change of registry A after request {never,1,2}, and 3 renderings of the challenge scope string (order / duplication / wildcard action). " +
-			"concurrent: 2-3 goroutines through one cache (same host and scope, same host different scopes, different hosts, first caller cancelled during the token fetch) under every schedule within D<=2. " +
+			"concurrent: 2-3 goroutines through one cache (same host and scope, same host different scopes, different hosts, first caller cancelled during the token fetch, the second of three callers cancelled) under every schedule within D<=2. " +
 			"Oracle at the innermost transport: every outgoing request is scanned (headers, query, body) for every secret of the other registry; passwords/refresh tokens only to the registry that challenged Basic or to the realm that registry advertised; " +
-			"with valid credentials the answer is non-401 after <= 3 sends to the registry and <= 1 token fetch per request; a bearer token is attached only at the host that issued it, and (no cache or shared cache) only when the canonical scope set it was issued for is the set the request declared as hints or that set joined with the scopes the registry asked for in the same exchange. " +
+			"with valid credentials the answer is non-401 after <= 3 sends to the registry and <= 1 token fetch per request; through a cache never two token requests for one registry and scope set in flight at once; a bearer token is attached only at the host that issued it, and (no cache or shared cache) only when the canonical scope set it was issued for is the set the request declared as hints or that set joined with the scopes the registry asked for in the same exchange. " +
 			"Separately CleanScopes over every scope list of <= 3 items from a 10-item alphabet (three of them with a colon inside the resource name): idempotent, order-insensitive, duplicate-free, wildcard-absorbing. non-trivial = distinct sequence containing both hosts or a cache hit",
 		Assumptions: []string{
 			"the Authorization copy made by the blob upload path of Repository is Repository code, not the auth client, and is outside this property",
@@ -68,6 +68,7 @@ type world struct {
 	fetches   int
 	scopeForm int
 	cancelOn  func()            // called by the realm on its first hit (concurrent hand-over scenario)
+	realmIn   map[string]int    // token requests being served right now, per registry and scope set
 	cacheKind string            // none | shared | single: which token cache the client under test uses
 	asked     map[string]string // per request id: canonical scope set of the last challenge sent for it
 	realmHits int
@@ -75,7 +76,7 @@ type world struct {
 }
 
 func newWorld(modeA, modeB string, scopeForm int) *world {
-	w := &world{regs: map[string]*regSpec{}, realmOf: map[string]string{}, tokens: map[string]issued{}, sends: map[string]int{}, scopeForm: scopeForm, asked: map[string]string{}}
+	w := &world{regs: map[string]*regSpec{}, realmOf: map[string]string{}, tokens: map[string]issued{}, sends: map[string]int{}, scopeForm: scopeForm, asked: map[string]string{}, realmIn: map[string]int{}}
 	w.regs["a.example"] = &regSpec{host: "a.example", realm: "https://a.example/token", user: "userA", pass: "PASSWORD-A", refresh: "REFRESH-A", token: "ACCESS-A", mode: modeA}
 	w.regs[hostB] = &regSpec{host: hostB, realm: "https://auth.example/b/token", user: "userB", pass: "PASSWORD-B", refresh: "REFRESH-B", token: "ACCESS-B", mode: modeB}
 	for h, r := range w.regs {
@@ -370,6 +371,19 @@ func (w *world) realm(req *http.Request, r *regSpec, body string) *http.Response
 		}
 	}
 	w.log = append(w.log, fmt.Sprintf("   realm(%s) %s scopes=%v ok=%v", r.host, req.Method, scopes, okCred))
+	if w.cacheKind == "shared" || w.cacheKind == "single" {
+		// through a cache, requests for one registry and scope set share one fetch: a second token request for
+		// the same key while one is being served means somebody did not wait for it
+		key := r.host + " " + canonSet(scopes)
+		w.realmIn[key]++
+		if w.realmIn[key] > 1 {
+			w.fails = append(w.fails, fmt.Sprintf("two token fetches for %s {%s} in flight at the same time: a request did not share the fetch in flight", r.host, canonSet(scopes)))
+		}
+		w.mu.Unlock()
+		vs.Pt("realm serving")
+		w.mu.Lock()
+		w.realmIn[key]--
+	}
 	if !okCred {
 		return resp(req, 401, nil, `{"errors":[{"code":"UNAUTHORIZED"}]}`)
 	}
@@ -580,6 +594,8 @@ func sig(f string) string {
 		return "password or refresh token sent to a registry that did not challenge with Basic"
 	case strings.HasPrefix(f, "a token cached under the Basic"):
 		return "a cached token was reused under another scheme"
+	case strings.HasPrefix(f, "two token fetches for"):
+		return "a request did not share the token fetch in flight for its registry and scope set"
 	case strings.HasPrefix(f, "a bearer token issued for the scope set"):
 		return "a cached bearer token was reused for a different scope set"
 	case strings.HasPrefix(f, "a bearer token issued"):
@@ -659,6 +675,7 @@ type cscen struct {
 	cache  string
 	reqs   []reqKind
 	cancel bool // the first caller's context is cancelled while the realm handles its fetch
+	who    int  // which caller's context that is (with three callers, 1: a caller that may only be waiting on another's fetch)
 }
 
 func concJobs(th bool) []driver.Job {
@@ -667,10 +684,13 @@ func concJobs(th bool) []driver.Job {
 	for _, cache := range []string{"shared", "single"} {
 		for _, m := range []string{"dist", "oauth-refresh", "basic"} {
 			scs = append(scs,
-				cscen{"same-host-same-scope", m, cache, []reqKind{a1, a1, a1}, false},
-				cscen{"same-host-two-scopes", m, cache, []reqKind{a1, a2, a1}, false},
-				cscen{"two-hosts", m, cache, []reqKind{a1, b1, a1}, false},
-				cscen{"first-caller-cancelled", m, cache, []reqKind{a1, a1}, true},
+				cscen{"same-host-same-scope", m, cache, []reqKind{a1, a1, a1}, false, 0},
+				cscen{"same-host-two-scopes", m, cache, []reqKind{a1, a2, a1}, false, 0},
+				cscen{"two-hosts", m, cache, []reqKind{a1, b1, a1}, false, 0},
+				cscen{"first-caller-cancelled", m, cache, []reqKind{a1, a1}, true, 0},
+				// three callers of one scope; the second one's context is cancelled when the token service is first
+				// reached: where it was only waiting, the fetch in flight stays the one the third caller shares
+				cscen{"second-of-three-cancelled", m, cache, []reqKind{a1, a1, a1}, true, 1},
 			)
 		}
 	}
@@ -719,7 +739,7 @@ func conc(c *driver.Ctx, sc cscen) (func(), func(*vs.Result) *driver.Fail) {
 			i, k := i, k
 			vs.Go(func() {
 				ctx := context.Background()
-				if i == 0 && sc.cancel {
+				if i == sc.who && sc.cancel {
 					ctx = ctx0
 				}
 				rs, err := doReq(ctx, cl, fmt.Sprintf("g%d", i), k)
@@ -751,7 +771,7 @@ func conc(c *driver.Ctx, sc cscen) (func(), func(*vs.Result) *driver.Fail) {
 			return &driver.Fail{Sig: sig(w.fails[0]), Detail: d() + "\n" + strings.Join(w.fails, "\n")}
 		}
 		for i, r := range results {
-			if i == 0 && sc.cancel {
+			if i == sc.who && sc.cancel {
 				continue // the cancelled caller may fail with its context's error or succeed
 			}
 			if r.err != "" || r.status != 200 {
